@@ -688,6 +688,12 @@ def expand_template(tmpl_text, read_repo, read_include=None):
             report.setdefault('includes', []).append(st.split()[1])
             i += 1
             continue
+        if st.startswith('//@logmacros '):
+            # //@logmacros debug! info! ...: from here on every invocation of these logging macros (expressions of type ())
+            # in any extracted function is replaced by `()`, whether or not the function mentioned them when the template was written
+            report['logmacros'] = st.split()[1:]
+            i += 1
+            continue
         if st.startswith('//@lit '):
             # //@lit <file> <owner> <fn> <CONST>: emit a trusted accessor for a byte-string literal found in that fn
             _, f, owner, fn, cname = st.split()
@@ -858,6 +864,9 @@ def expand_template(tmpl_text, read_repo, read_include=None):
                 i += 1
             else:
                 raise ExtractionError('//@fn %s: missing //@end' % name)
+            for _mac in report.get('logmacros', []):
+                if _mac not in ed.dropmacro_exprs:
+                    ed.dropmacro_exprs.append(_mac)
             text, info = ed.apply(read_repo(f))
             out.append('// ---- extracted verbatim from %s:%d  (%s) ----' % (f, info['line'], info['fn']))
             info['gen_line_start'] = sum(x.count('\n') + 1 for x in out) + 1
